@@ -343,7 +343,9 @@ class BaseFileWriterSession(BaseWriterSession):
 
     def save_document(self, response: BaseResponse):
         if self._filename and os.path.exists(self._filename):
-            if self._headers_included:
+            if self._headers_included and \
+                    response.request.url_info.scheme in ('http', 'https'):
+                # (An FTP response has no header block.)
                 self.save_headers(self._filename, response)
 
             if self._local_timestamping and \
